@@ -27,6 +27,10 @@ CMDS_Q = ["ls", "id", "cat", "lsx", "xls", "l", "LS", "./ls", "b/ls", "/b/ls", "
 CMDS_T = CMDS_Q + ["Ls", "ls ", "", "ls/", "/bin/ls", "b\\ls", "lsls", "i"]
 ARGS_Q = ([[], ["-l"], ["a", "b"], ["a/b"], ["/etc"], ["/"], ["a", "/etc"], ["a", ";"], ["a;b"], ["x$(id)"], ["'"], ["a b"]]
           + [[c] for c in META])
+# metacharacters / absolute paths at every position of an argument: before and after '=', ':' and ',' separators,
+# in --opt=value forms (key part and value part), in arguments made of several segments
+ARGS_Q += [["$(id)=1"], ["a;b=c"], ["*=1"], ["/etc/passwd=x"], ["--opt=/etc"], ["--opt=a;b"], ["--o;pt=v"], ["k=v=;"],
+           ["=;"], [";="], ["a:/etc"], ["a:b|c"], ["|a:b"], ["x,y;z"], ["x,/etc"], ["k=v", "/etc=x"], ["a=b,c:d"]]
 ARGS_T = ARGS_Q + [["a|b"], ["`id`"], ["a", "b", "c>d"], ["\""], ["#"], ["\n"], [""], ["="], ["..", "x"], ["-x", "~"],
                    ["%"], ["^"], ["a\tb"]]
 AUTH_CMDS = ["ls", "cat"]
@@ -55,6 +59,18 @@ def d_files(tag, dev, cmds, args, inv, full):
 def d_run(ctx, cmds, args, dev=(), inv="OnlyAuthorised", tag="MCD", expect_violation=False, full=False):
     return ctx.tlc(tag, tag + ".cfg", files=d_files(tag, dev, cmds, args, inv, full), expect_violation=expect_violation,
                    name=tag, timeout=900)
+
+
+H_CFG = ("CONSTANTS\n Dev = {%s}\n Part = \"H\"\n Whitelists = {} Cmds = {} ArgVecs = {} AuthCmds = {} AuthArgVecs = {}\n"
+         " CmdSliceArgs = {} ArgSliceWls = {} ArgSliceCmds = {}\n Streams = {} Observers = {} Max = 0 MaxOpens = %d\n"
+         "INIT HInit\nNEXT HNext\nINVARIANTS HOnlyMatching\n%s")
+
+
+def h_run(ctx, dev=(), maxreq=3, emit=True, expect_violation=False):
+    """Part H: request sequences on one executor (history-free authorisation)"""
+    return ctx.tlc("Shell", "MCH.cfg", files={"MCH.cfg": H_CFG % (",".join('"%s"' % d for d in dev), maxreq,
+                                                                 "ACTION_CONSTRAINT HEmitEdge\n" if emit else "")},
+                   expect_violation=expect_violation, name="MCH", timeout=600)
 
 
 def s_cfg(dev, streams, observers, maxs, maxopens):
